@@ -541,7 +541,7 @@ fn combos(n: usize, tier: Tier, round: usize, rng: &mut ChaCha8Rng, naive_cap: u
                 v.push((s, b));
             }
         }
-    } else if tier == Tier::Thorough {
+    } else if tier == Tier::Thorough && n <= 8104 {
         diagonal(&mut v);
         covering(&mut v);
         v.extend(edges);
@@ -556,7 +556,8 @@ fn combos(n: usize, tier: Tier, round: usize, rng: &mut ChaCha8Rng, naive_cap: u
         diagonal(&mut v);
         v.extend(edges);
     } else {
-        // quick, single lengths 8103 / 8104: enter the batch-affine path with the edge classes
+        // quick: single lengths 8103 / 8104; thorough: lengths above 8104 — the batch-affine path of
+        // msm_best with the edge classes
         v.extend([(4, 0), (1, 1), (4, 1), (1, 3), (2, 2), (3, 4), (4, 5)]);
     }
     let _ = rng;
@@ -604,7 +605,7 @@ fn msm_section<E>(
     // groups: all small lengths together, then one group per large length
     let mut groups: Vec<Vec<MsmDesc>> = vec![vec![]];
     for &n in lengths {
-        let nrounds = if n >= 1000 { rounds } else { 1 };
+        let nrounds = if (1000..=4096).contains(&n) { rounds } else { 1 };
         let mut g = vec![];
         for round in 0..nrounds {
             for (sc, bc) in combos(n, ctx.tier, round, &mut crng, naive_cap) {
@@ -1668,7 +1669,7 @@ fn main() {
     }
 
     let reps = 3;
-    let rounds = ctx.tier.pick(1, 3);
+    let rounds = ctx.tier.pick(1, 2);
     let lengths = msm_lengths(ctx.tier);
     rep.set("msm_lengths", json!(lengths));
     rep.set("repetitions", json!(reps));
